@@ -74,4 +74,14 @@ theorem itemsOut_eq (items : List (BlockSrc × List Tok)) : ∀ (line : Int) (j 
     obtain ⟨b, j'⟩ := bj
     simp [itemsOut, expItems, endImplicit_eq_expJunk, ih]
 
+/-- the document theorem (stated as the property theorem `C02.split_correct`) -/
+theorem splitToks_doc (d : Doc) (h : d.WF P) : splitToks P d.toks = .ok (d.expected P (-1)) := by
+  obtain ⟨hhead, hitems⟩ := h
+  unfold splitToks Doc.toks
+  rw [show (d.head ++ d.items.flatMap fun x => x.1.toks ++ x.2) = d.head ++ itemsToks d.items from rfl,
+    run_append, run_junk P d.head init [] (-1) rfl rfl hhead,
+    finish_run_items P d.items _ (d.head.reverse ++ []) (-1) rfl rfl hitems]
+  simp only [init, List.reverse_nil, List.nil_append, List.append_nil, Doc.expected]
+  rw [itemsOut_eq]
+
 end Bib
